@@ -30,11 +30,17 @@ def build(states, inner):
     return Transitions(trajectory=None, diff_trajectory=None, sites=c03.dummy_sites(n_sites), events=events, states=states, inner_states=inner)
 
 
-def jump_rows(tr, residence):
-    """-> list of 5-tuples, or None when 'No jumps found' is raised (an empty table is an equally valid way to report no jumps)."""
+def jump_rows(tr, residence, route='class'):
+    """-> list of 5-tuples, or None when 'No jumps found' is raised (an empty table is an equally valid way to report no jumps).
+    route: the Jumps class, the Transitions.jumps() convenience method, or that method without arguments (minimal residence 0)."""
     from gemdat.jumps import Jumps
 
-    j = gcall(Jumps, tr, minimal_residence=residence, allow=(ValueError,))
+    if route == 'method-bare' and residence == 0:
+        j = gcall(tr.jumps, allow=(ValueError,))
+    elif route.startswith('method'):
+        j = gcall(tr.jumps, minimal_residence=residence, allow=(ValueError,))
+    else:
+        j = gcall(Jumps, tr, minimal_residence=residence, allow=(ValueError,))
     if isinstance(j, Raised):
         if 'No jumps found' not in str(j.exc):
             raise Violation('unexpected-exception', repr(j.exc))
@@ -61,8 +67,17 @@ def run(case):
     tr = build(states, inner)
     labels = []
     prev_keys = None
+    # the analyses are requested in a case-dependent order and through a case-dependent route on ONE Transitions object; afterwards
+    # they are examined by ascending residence
+    h = int(np.abs(states).sum()) + int(np.abs(inner).sum()) + 3 * len(states)
+    route = ['class', 'method', 'method-bare'][h % 3]
+    asked = sorted(residences, reverse=bool((h // 3) % 2))
+    all_rows = {res: jump_rows(tr, res, route) for res in asked}
+    if (h // 6) % 2 and 0 in all_rows:
+        all_rows[0] = jump_rows(tr, 0, route)  # the default analysis once more, after all the others
+    labels.append('route-' + route)
     for res in sorted(residences):
-        rows = jump_rows(tr, res)
+        rows = all_rows[res]
         if inner_equal and res == 0:
             # default settings: exact equality with the model, each jump once
             if rows is None:
